@@ -314,6 +314,27 @@ def run(pid, tier):
                                "engine": "trajectories", "case": k,
                                "detail": {"same_process_repeat_equal": second.get(k, [None])[0] == h,
                                           "fresh_process_equal": fresh.get(k, [None])[0] == h}})
+    # ---------------- (e) a trajectory must not depend on which OTHER scenario the process handled before
+    from .family import build
+    basec = {"shape": "1-2", "topo": "chain", "fw": "allow_all", "hostfw": "none", "sw": "2os2s2p", "exploits": "e0e2",
+             "privescs": "two", "prob": "half", "cost": "unit", "values": "pos_neg", "discovery": "zero",
+             "sensitive": "two_subnets", "step_limit": None, "bounds": "default", "host_order": "sorted", "names": "plain"}
+    xp = build(basec, name="pred-plain")
+    xs = build({**basec, "names": "swapped"}, name="pred-swapped")       # same names, lists in the other order
+    xu = build({**basec, "exploits": "e1e3", "fw": "asym", "values": "frac"}, name="pred-other-content")
+    ep, es, eu = (entry_to_json((x, "yaml")) for x in (xp, xs, xu))
+    seqs = {"swapped_alone": [es], "swapped_after_plain": [ep, es], "plain_alone": [ep], "plain_after_swapped": [es, ep],
+            "plain_after_other_content": [eu, ep]}
+    with mp.get_context("fork").Pool(processes=len(seqs)) as pool:
+        res_e = pool.map(_spawn_star, [({"kind": "trajectories", "entries": q, "seeds": [0, 1]}, 0) for q in seqs.values()])
+    res_e = dict(zip(seqs.keys(), res_e))
+    for alone, after in (("swapped_alone", "swapped_after_plain"), ("plain_alone", "plain_after_swapped"),
+                         ("plain_alone", "plain_after_other_content")):
+        for k, v in res_e[alone].items():
+            if res_e[after].get(k, [None])[0] != v[0]:
+                violations.append({"property": "C14", "kind": "seeded_trajectory_depends_on_the_scenario_handled_before",
+                                   "engine": "predecessor", "case": k,
+                                   "detail": {"alone": alone, "after_another_scenario": after, "case": k}})
     if n_chance == 0:
         raise HarnessError("vacuous C14 trajectories: no chance-decided step executed")
     evals = runs_a + n_b + len(histories) + 3 * len(first)
